@@ -94,7 +94,7 @@ CHECKS = {
             "UniqueFileHandle over real descriptors incl. descriptor 0 (closure observed with fcntl).", "6 C15"),
     "C07": ("Tables.tla: definitions evolving by add/remove/mark-deleted/reorder/replace-by-fungible with ids never reused; "
             "MC_Tables checks W6 (every pair of definitions of a history is mutually readable as Project prescribes, reader "
-            "positioned after the table) over all histories of <= 4 steps (6 in the thorough tier); TLC emits the 254 "
+            "positioned after the table) over all histories of <= 4 steps (6 in the thorough tier); TLC emits the 294 "
             "reachable definitions (pool/tables.json) which are instantiated as C++ table types; every ordered (writer, "
             "reader) pair x entry assignments (every fifth pair with 130-character strings and widest-class integers, so "
             "that entry and nested-table sizes cross 127/128 bytes) is written, read - into fresh and into reused, fully "
